@@ -94,11 +94,18 @@ Definition decode_name (raw : str) : option str :=
 (* the mathematical value of a number, whatever its stored kind *)
 Definition num_val (n : num) : dy := match n with NInt z => (z, 0) | NFlt d => d end.
 
+(* RFC 9535 2.1 / I-JSON (RFC 7493 2.2): numbers are interoperable as IEEE 754 binary64 values.
+   [num_f64] is the binary64 a number denotes; it is the mathematical value [num_val] whenever the
+   number is an integer of magnitude below 2^53 or a float (lemma [num_f64_exact], SpecFacts).
+   The comparison rules below are stated on [num_f64]; C04 restates them on [num_val] under that
+   proviso. *)
+Definition num_f64 (n : num) : dy := num_to_dy n.
+
 Fixpoint rfc_json_eq (a b : json) : bool :=
   match a, b with
   | JNull, JNull => true
   | JBool x, JBool y => Bool.eqb x y
-  | JNum x, JNum y => dy_eqb (num_val x) (num_val y)
+  | JNum x, JNum y => dy_eqb (num_f64 x) (num_f64 y)
   | JStr x, JStr y => str_eqb x y
   | JArr la, JArr lb =>
       (fix go (la lb : list json) : bool :=
@@ -128,7 +135,7 @@ Definition rfc_eq (a b : vtype) : bool :=
   end.
 Definition rfc_lt (a b : vtype) : bool :=
   match a, b with
-  | Some (JNum x), Some (JNum y) => dy_ltb (num_val x) (num_val y)
+  | Some (JNum x), Some (JNum y) => dy_ltb (num_f64 x) (num_f64 y)
   | Some (JStr x), Some (JStr y) => str_ltb x y
   | _, _ => false
   end.
@@ -227,9 +234,9 @@ Definition rfc_value (l : list node) : vtype :=
 (* the library's documented extension functions (C14), over the element equality [veq] *)
 Section Ext.
   Variable veq : json -> json -> bool.
-  Definition ext_in (x : json) (l : list json) : bool := existsb (veq x) l.
-  Definition ext_any_of (a b : list json) : bool := existsb (fun x => existsb (veq x) b) a.
-  Definition ext_subset_of (a b : list json) : bool := forallb (fun x => existsb (veq x) b) a.
+  Definition ext_in (x : json) (l : list json) : bool := existsb (fun item => veq item x) l.
+  Definition ext_any_of (a b : list json) : bool := existsb (fun x => existsb (fun y => veq x y) b) a.
+  Definition ext_subset_of (a b : list json) : bool := forallb (fun x => existsb (fun y => veq x y) b) a.
 End Ext.
 
 Definition lit_value (l : literal) : vtype :=
